@@ -72,9 +72,10 @@ def _build():
             n += 1
             _add('sel[%s|w=%s]' % (','.join(t), w), Q(items=[ITEMS[x] for x in t], where=WHERES.get(w)), quick=(t[0] in ('a2', 'lits', 'unnf') and w is not None))
     # EXCEPT
-    for nm, idx, txt in (('a2', [1], 'a2'), ('a1a3', [0, 2], 'a1, a3'), ('a3a1', [0, 2], 'a3,a1'), ('arr1', [0], 'a[1]'), ('a1a2a3', [0, 1, 2], 'a1, a2, a3')):
+    for nm, idx, txt in (('a2', [1], 'a2'), ('a1a3', [0, 2], 'a1, a3'), ('a3a1', [0, 2], 'a3,a1'), ('arr1', [0], 'a[1]'), ('a1a2a3', [0, 1, 2], 'a1, a2, a3'),
+                         ('dup-a1a1a3', [0, 0, 2], 'a1, a[1], a3'), ('dup-a2a2', [1, 1], 'a2, a2'), ('dup-a3a1a1a2', [0, 0, 1, 2], 'a3, a1, a1, a2')):
         for w in (None, 'nf1', 'nex'):
-            _add('except[%s|w=%s]' % (nm, w), Q(excpt=idx, excpt_text=txt, where=WHERES.get(w)), quick=(nm == 'a1a3' and w == 'nf1') or (nm == 'a2' and w is None))
+            _add('except[%s|w=%s]' % (nm, w), Q(excpt=idx, excpt_text=txt, where=WHERES.get(w)), quick=(nm == 'a1a3' and w == 'nf1') or (nm == 'a2' and w is None) or (nm == 'dup-a1a1a3' and w is None))
     # JOIN members: inner / left join on a1 == b1 (int keys), select over a and b items
     jl = [('a1', 'b2'), ('star',), ('bstar', 'a2'), ('a2', 'bNR', 'NR'), ('b2', 'astar'), ('lit7', 'bstar', 'star'), ('unb', 'a1'), ('a2', 'unb')]
     for kind, kn in (('JOIN', 'inner'), ('LEFT JOIN', 'left')):
@@ -88,7 +89,7 @@ def _build():
 _build()
 
 # shapes: rows as strings of cell codes (o = Optional[str])
-SHAPES_QUICK = [['oo', 'o'], ['o', 'ooo', '']]
+SHAPES_QUICK = [['oo', 'o'], ['o', 'ooo', ''], ['ooo', 'so']]
 SHAPES_ALL = [[], ['ooo'], [''], ['oo', 'o'], ['o', 'oo'], ['oo', 'oo'], ['', 'o'], ['ooo', 'o'], ['o', 'ooo', ''], ['oo', '', 'ooo'], ['o', 'o', 'o'], ['oo', 'o', 'oo'], ['ooo', 'oo', 'o']]
 JSHAPES_QUICK = [(['ks', 'ks'], ['ks', 'ks'])]
 JSHAPES_ALL = [(['ks', 'ks'], ['ks', 'ks']), (['ko'], ['ko', 'ko']), (['ks', 'k', 'ks'], ['ks']), ([], ['ks']), (['ks', 'ks'], []), (['ks'], ['ks', 'k', 'kss'])]
@@ -108,7 +109,7 @@ def obligations(tier, seed):
                 a, b = JSHAPES_QUICK[0]
                 obs.append(qh.query_obl('C01', name, q, a, b, krange=2, timeout=150))
             else:
-                obs.append(qh.query_obl('C01', name, q, SHAPES_QUICK[(i + seed) % 2], timeout=150))
+                obs.append(qh.query_obl('C01', name, q, SHAPES_QUICK[2] if name.startswith('except[dup') else SHAPES_QUICK[(i + seed) % 2], timeout=150))
     else:
         for i, name in enumerate(THOROUGH):
             q = CASES[name]
